@@ -13,10 +13,27 @@ def run(ctx):
                 "event kwargs = nested values with hostile leaves; non-trivial = distinct history with >= 1 incident "
                 "trigger or >= 1 buffer at its limit; (b) Subscription schedules: send / turn / ack / nack sequences on the "
                 "real Subscription with a fake subscriber, non-trivial = queue overflowed or in-flight limit reached; "
-                "(c) hostile msg() calls and format_message() inputs, non-trivial = distinct input")
-    ctx.assumptions = ["JSON is abstracted: e_ok = 'flogfile.serialize_wrapper succeeds on the event', measured on the real "
-                       "encoder for every event (CPython json: modelled, not verified)",
-                       "one model op = one application call followed by a complete turn of the eventual-send queue",
+                "(c) hostile msg() calls and format_message() inputs, non-trivial = distinct input; (d) JSON family: fixed witnesses "
+                "(one per path through the three stages of serialize_to_json_utf8) + random nested values (any key kind, cycles "
+                "through lists / dicts / tuples, opaque objects with working / failing / unreprably failing repr, 2^k integers, "
+                "3000-5000 levels) through serialize_wrapper / serialize_header / serialize_to_json_utf8, compared with the model's "
+                "predicted read-back value; plus a whole file of them through get_events (plain and .bz2)")
+    ctx.assumptions = ["CPython's json module is modelled, not verified: which values the encoder refuses (keys other than "
+                       "str/int/float/bool/None -> TypeError, containers that contain themselves and integers too large to print "
+                       "-> ValueError, nesting beyond the recursion budget -> RecursionError), that it consults default= for "
+                       "everything else, and that json.loads returns what was dumped; the budgets are parameters of the theorems "
+                       "(lims), the correspondence uses 1500 levels / 800 frames / 2^14284 and avoids values near them",
+                       "in the logger model an event's encodability is the measured flag e_ok ('the first stage succeeds'); the "
+                       "composition theorems take any payload function that maps the model's events to event dicts",
+                       "keys that collide after being turned into text (1 and '1', two keys with equal repr) follow the reader's "
+                       "dict semantics in the correspondence; the theorems speak of events whose own keys are text (kwargs)",
+                       "one model op = one application call followed by a complete turn of the eventual-send queue (lib/LogBuf.v "
+                       "`iterate` refines this for incidents; immediate observers are synchronous, so run_sends does not depend on it)",
+                       "re-entrant msg() (from an immediate observer, from a __str__ that logs): only the NUMBERING is modelled "
+                       "(lib/LogReent.v); buffers / incidents / subscriptions under re-entrancy are oracle only (log.py asks immediate "
+                       "observers not to log)",
+                       "format_message: the outcome of the % operator is an input of the model (both outcomes covered); str()/repr() "
+                       "of values are measured flags",
                        "reporter liveness after a failed incident_declared follows CPython reference counting "
                        "(the reporter is referenced by the in-flight exception until msg() returns)",
                        "the Subscription's subscriber is a fake whose callRemote returns Deferreds fired by the schedule"]
@@ -25,20 +42,34 @@ def run(ctx):
     before = len(ctx.failures)
     model_ok = ok
     if not ok:
-        model_ok, _ = ctx.coq_build(["lib/LogBuf.vo"])
-    run_corpus(ctx, impl)
-    traces = logger_traces(ctx, impl)
-    subs = subscription_traces(ctx, impl)
-    wruns = writer_family(ctx, impl)
-    fines = fine_traces(ctx, impl)
-    hostile_calls(ctx, impl)
-    format_total(ctx, impl)
+        model_ok, _ = ctx.coq_build(["lib/LogBuf.vo", "lib/LogJson.vo", "lib/LogFmt.vo", "lib/LogReent.vo"])
+    import time
+    tm = {}
+
+    def timed(name, f, *a):
+        t0 = time.time()
+        r = f(*a)
+        tm[name] = round(time.time() - t0, 1)
+        return r
+    timed("corpus", run_corpus, ctx, impl)
+    traces = timed("logger", logger_traces, ctx, impl)
+    subs = timed("subs", subscription_traces, ctx, impl)
+    wruns = timed("writers", writer_family, ctx, impl)
+    fines = timed("fine", fine_traces, ctx, impl)
+    jcases = timed("json", json_family, ctx, impl)
+    timed("hostile", hostile_calls, ctx, impl)
+    fcases = timed("format", format_total, ctx, impl)
+    rruns = timed("reentrant", reentrant_trees, ctx, impl)
     if model_ok:
-        correspond_logger(ctx, traces)
-        correspond_subs(ctx, subs)
-        correspond_writers(ctx, wruns)
-        correspond_fine(ctx, fines)
-        replay_model_witnesses(ctx, impl)
+        timed("c_logger", correspond_logger, ctx, traces)
+        timed("c_subs", correspond_subs, ctx, subs)
+        timed("c_writers", correspond_writers, ctx, wruns)
+        timed("c_fine", correspond_fine, ctx, fines)
+        timed("c_json", correspond_json, ctx, impl, jcases)
+        timed("c_format", correspond_format, ctx, fcases)
+        timed("c_reentrant", correspond_reentrant, ctx, rruns)
+        timed("witnesses", replay_model_witnesses, ctx, impl)
+    ctx.extra["phase_seconds"] = tm
     if not ok:
         # reported even when a failing input was found as well: a finding listed as known must not hide a broken proof
         ctx.fail("proof-broken", "theorem closure props/C18.vo no longer builds against the regenerated gen/LogBufGen.v: "
@@ -235,6 +266,9 @@ def run_trace(ctx, impl, cfg, ops, name="t", judge=True):
         emitted = {tuple(impl.view(e)): e for e in rig.order}
 
         def check_back(where, d):
+            if not isinstance(d, dict):
+                bad("oracle/readback-differs", "%s: an event reads back as %r instead of an event record" % (where, d))
+                return
             v = tuple(impl.view(d))
             orig = emitted.get(v)
             if orig is None:
@@ -295,7 +329,7 @@ def run_trace(ctx, impl, cfg, ops, name="t", judge=True):
             for d in back[:50]:
                 check_back("all.flog", d)
     return dict(cfg=cfg, ops=ops, flags=flags, steps=steps, final=final, triggers=len(expected), hit_limit=hit_limit,
-                kinds=sorted(kinds), faulted_triggers=faulted_triggers)
+                kinds=sorted(kinds), faulted_triggers=faulted_triggers, order=[norm_view(impl.view(e)) for e in rig.order])
 
 
 def logger_traces(ctx, impl):
@@ -377,6 +411,7 @@ Fixpoint segs_obs (s : st) (segs : list (cfg * list op)) : list (Z * Z * Z * Z) 
   | (c, ops) :: t => run_obs c s ops ++ segs_obs (fst (run c s ops)) t
   end.
 Definition trace (segs : list (cfg * list op)) := (segs_obs init segs, obs_final (run_segs init segs)).
+Definition sends_trace (segs : list (cfg * list op)) := map vw (segs_sends init segs).
 """
 
 
@@ -392,14 +427,15 @@ def correspond_logger(ctx, traces):
         part = traces[s0:s0 + shard]
         body = MODEL_DEFS
         for j, t in enumerate(part):
-            body += "Eval vm_compute in trace %s.\n" % coq_segs(t)
+            body += "Eval vm_compute in (trace %s, sends_trace %s).\n" % (coq_segs(t), coq_segs(t))
         try:
             vals = ctx.coq_eval("C18_traces_%d" % (s0 // shard), body, requires=REQ)
         except common.CoqEvalError as e:
             ctx.fail("correspondence-broken", "the logger model could not be evaluated: " + str(e)[-1500:], has_input=False)
             return
         for t, v in zip(part, vals):
-            msteps, (mbufs, (mdecl, mrec), mfiles, (mtmp, mrem)) = v
+            # ((steps, final), sends) is printed flat
+            msteps, (mbufs, (mdecl, mrec), mfiles, (mtmp, mrem)), msends = v
             msteps = [list(x) for x in msteps]
             mb = [[f, [[l, [list(x) for x in q]] for (l, q) in d]] for (f, d) in mbufs]
             fin = t["final"]
@@ -426,6 +462,10 @@ def correspond_logger(ctx, traces):
                 diffs.append("abandoned/active .tmp files: model %d, implementation %d" % (mtmp, fin["tmp"]))
             if mrem != fin["remaining"]:
                 diffs.append("remaining trailing events: model %d, implementation %d" % (mrem, fin["remaining"]))
+            if [list(x) for x in msends] != t["order"]:
+                k = next((i for i, (a, b) in enumerate(zip(msends, t["order"])) if list(a) != b), min(len(msends), len(t["order"])))
+                diffs.append("events handed to an immediate observer: model %d, implementation %d; first difference at %d: %r / %r"
+                             % (len(msends), len(t["order"]), k, msends[k:k + 2], t["order"][k:k + 2]))
             ctx.traces += 1
             if diffs:
                 nbad += 1
@@ -576,7 +616,7 @@ def correspond_subs(ctx, subs):
     size = lambda r: len(r["ops"]) + len(r["prefill"])
     small = [r for r in subs if size(r) <= 200]
     big = [r for r in subs if size(r) > 200]
-    shards = [small[i:i + 120] for i in range(0, len(small), 120)] + [[r] for r in big]
+    shards = [small[i:i + 120] for i in range(0, len(small), 120)] + [big[i:i + 4] for i in range(0, len(big), 4)]
     for si, part in enumerate(shards):
         body = SUB_DEFS
         for r in part:
@@ -1161,12 +1201,136 @@ def hostile_calls(ctx, impl):
             rig.turn()
         except Exception as e:
             ctx.fail("oracle/msg-raises", "log.err raised %r" % (e,), replay=dict(call="err"))
+        # re-entrant calls (not in the Coq model): an immediate observer that logs, a value whose __repr__ / __str__ logs
+        inner = []
+
+        def reenter(ev):
+            if ev.get("reenter") and len(inner) < 50:
+                inner.append((ev["num"], rig.L.msg("logged from inside an observer", cid=-1, level=ev["level"])))
+        rig.L.addImmediateObserver(reenter)
+
+        class LogsInStr(object):
+            def __str__(self_):
+                inner.append((None, rig.L.msg("logged from inside __str__", cid=-1)))
+                return "text"
+            __repr__ = __str__
+        for j, kw in enumerate([dict(reenter=True, level=20), dict(reenter=True, level=30), dict(message=LogsInStr()),
+                                dict(x=LogsInStr(), level="bad level"), dict(reenter=True, level=20, facility=[1])]):
+            try:
+                r = rig.L.msg(*(() if "message" in kw else ("outer %d" % j,)), cid=-1, **kw)
+                rig.turn()
+            except Exception as e:
+                ctx.fail("oracle/msg-raises", "log.msg raised %r for re-entrant call #%d" % (e, j), replay=dict(reentrant=j))
+                continue
+            ctx.case(["hostile-reentrant", j], nontrivial=True)
+            if not isinstance(r, int) or r <= last:
+                ctx.fail("oracle/numbers-not-increasing", "msg returned %r after %r for re-entrant call #%d" % (r, last, j),
+                         replay=dict(reentrant=j))
+            else:
+                last = r
+            for outer, got in inner:
+                if not isinstance(got, int) or got <= r or (outer is not None and outer != r):
+                    ctx.fail("oracle/numbers-not-increasing", "a call made from inside call #%d (which returned %r) returned %r"
+                             % (j, r, got), replay=dict(reentrant=j))
+                last = max(last, got) if isinstance(got, int) else last
+            del inner[:]
+        rig.L.removeImmediateObserver(reenter)
         if len(sub.queue) > sub.MAX_QUEUE_SIZE or sub.in_flight > sub.MAX_IN_FLIGHT:
             ctx.fail("oracle/subscriber-queue-over-limit", "after the hostile calls queue=%d in_flight=%d" % (len(sub.queue), sub.in_flight),
                      replay=dict(call="hostile"))
         rig.timer()
         rig.close()
     ctx.hist("hostile_calls", "n", len(calls) + len(extra))
+
+
+# ====================================================================== re-entrant calls (lib/LogReent.v)
+def gen_tree(rng, depth=0):
+    return [gen_tree(rng, depth + 1) for i in range(rng.choice([0, 0, 1, 2, 3] if depth < 3 else [0]))]
+
+
+def coq_tree(t):
+    return "Call None %s" % coq_list(["(%s)" % coq_tree(k) for k in t])
+
+
+def reentrant_trees(ctx, impl):
+    """call trees on the real logger: an immediate observer (or an application observer run from the eventual queue, or a
+    __str__ of the message) makes the inner calls of each event; the numbers returned, in the order the calls start"""
+    from foolscap.logging import log as flog
+    out = []
+    fixed = [[[[]], []], [[[[[]]]]], [[], [], []]]
+    with impl.E.quiet():
+        for i in range(len(fixed) + ctx.n(40, 600)):
+            forest = fixed[i] if i < len(fixed) else [gen_tree(ctx.rng) for k in range(ctx.rng.randint(1, 3))]
+            via = ["immediate", "str", "immediate-weird"][i % 3]
+            rig = impl.LoggerRig("reent", True, True, logfile=True)
+            L = rig.L
+            for k in range(ctx.rng.randint(0, 4)):
+                L.msg("before", cid=-1)
+            seq0 = L.msg("last before", cid=-1)
+            order, errors = [], []
+
+            def do(node, lvl):
+                idx = len(order)
+                order.append(None)
+                try:
+                    if via == "str":
+                        class M(object):
+                            def __str__(self_):
+                                for kid in node:
+                                    do(kid, lvl)
+                                return "text"
+                        order[idx] = L.msg(M(), cid=-1, level=lvl)
+                    else:
+                        order[idx] = L.msg("node", cid=-1, level=lvl, kids=node)
+                except Exception as e:
+                    errors.append(e)
+
+            def obs(ev):
+                if "kids" in ev and not ev.get("_done"):
+                    ev["_done"] = True
+                    for kid in ev["kids"]:
+                        do(kid, ev["level"])
+            if via != "str":
+                L.addImmediateObserver(obs)
+            for t in forest:
+                do(t, 30 if via == "immediate-weird" else 20)
+                rig.turn()
+            after = L.msg("after", cid=-1)
+            rig.timer()
+            rig.close()
+            replay = dict(forest=forest, via=via)
+            n = len(order)
+            if errors:
+                ctx.fail("oracle/msg-raises", "log.msg raised %r inside a tree of re-entrant calls (%s)" % (errors[0], via), replay=replay)
+            elif order != list(range(seq0 + 1, seq0 + 1 + n)) or after != seq0 + n + 1:
+                ctx.fail("oracle/numbers-not-increasing", "re-entrant calls (%s) made in start order returned %r after %r, the next call "
+                         "%r: not seq+1, seq+2, .." % (via, order[:30], seq0, after), replay=replay)
+            ctx.case(["reentrant", via, forest], nontrivial=n > len(forest))
+            ctx.hist("reentrant_calls_per_forest", min(n, 12))
+            out.append(dict(forest=forest, seq0=seq0, order=order, after=after, via=via))
+    return out
+
+
+def correspond_reentrant(ctx, runs):
+    body = "Open Scope Z_scope.\n"
+    for r in runs:
+        body += "Eval vm_compute in rcalls %s %s.\n" % (coq_Z(r["seq0"]), coq_list([coq_tree(t) for t in r["forest"]]))
+    try:
+        vals = ctx.coq_eval("C18_reent", body, requires=REQ + ["Verif.lib.LogReent"])
+    except common.CoqEvalError as e:
+        ctx.fail("correspondence-broken", "the re-entrancy model could not be evaluated: " + str(e)[-1500:], has_input=False)
+        return
+    nbad = 0
+    for r, (seq, rets) in zip(runs, vals):
+        ctx.traces += 1
+        if rets != r["order"] or seq + 1 != r["after"]:
+            nbad += 1
+            if nbad <= 3:
+                ctx.fail("correspondence/reentrant", "call forest %r (%s): model returns %r then %d, implementation %r then %r"
+                         % (r["forest"], r["via"], rets, seq + 1, r["order"], r["after"]), replay=dict(forest=r["forest"], via=r["via"]),
+                         has_input=False)
+    ctx.extra["correspondence_reentrant_forests"] = len(runs)
+    ctx.extra["correspondence_reentrant_disagreements"] = nbad
 
 
 def gen_event_dict(rng, impl):
@@ -1186,22 +1350,350 @@ def gen_event_dict(rng, impl):
     return e
 
 
+ODD_KEY_EVENTS = [{5: 1}, {b"\xff": 1, "message": "m"}, {None: 2, "message": "m"}, {("a",): 1, "format": "%(x)s"},
+                  {b"caf\xc3\xa9": 1, "message": "ok"}, {b"message": b"\xff bytes"}]
+
+
+def fmt_model_input(e):
+    """event dict -> Coq term of type list (fkey * fval) (lib/LogFmt.v)"""
+    names = {"format": 1, "message": 2, "args": 3}
+    out = []
+    for k, v in e.items():
+        if isinstance(k, str):
+            kt = "FKText %d" % names.get(k, 10 + len(out))
+        elif isinstance(k, bytes):
+            try:
+                kt = "FKBytes %d true" % names.get(k.decode("utf-8"), 10 + len(out))
+            except UnicodeDecodeError:
+                kt = "FKBytes %d false" % (10 + len(out))
+        else:
+            kt = "FKOther"
+        if isinstance(v, str):
+            vt = "FVText 20"
+        elif isinstance(v, bytes):
+            try:
+                v.decode("utf-8")
+                vt = "FVBytes 20 true"
+            except UnicodeDecodeError:
+                vt = "FVBytes 20 false"
+        elif isinstance(v, (tuple, list)) and k in ("args", b"args"):
+            vt = "FVArgs"
+        else:
+            try:
+                repr(v)
+                vt = "FVObj true"
+            except Exception:
+                vt = "FVObj false"
+        out.append("(%s, %s)" % (kt, vt))
+    return "[" + "; ".join(out) + "]"
+
+
 def format_total(ctx, impl):
     from foolscap.logging import log as flog
     n = ctx.n(1500, 30000)
-    kinds = {}
-    for i in range(n):
-        e = gen_event_dict(ctx.rng, impl)
+    cases = []
+    for i in range(len(ODD_KEY_EVENTS) + n):
+        if i < len(ODD_KEY_EVENTS):
+            e = dict(ODD_KEY_EVENTS[i])
+        else:
+            e = gen_event_dict(ctx.rng, impl)
+            if ctx.rng.random() < 0.02:
+                e[ctx.rng.choice([7, None, b"\xfe\xff", (1, 2), 2.5])] = "odd key"
+        odd = any(not isinstance(k, (str, bytes)) for k in e) or any(isinstance(k, bytes) and not _utf8(k) for k in e)
+        outcome = None
         try:
             t = flog.format_message(e)
         except Exception as ex:
-            ctx.fail("oracle/format-raises", "format_message raised %r on an event with keys %r" % (ex, sorted(map(repr, e))),
-                     replay=dict(keys=sorted(map(repr, e)), values=[repr(type(v)) for v in e.values()]))
-            continue
-        if not isinstance(t, str):
-            ctx.fail("oracle/format-raises", "format_message returned %r (not text)" % (type(t),), replay=dict(keys=sorted(map(repr, e))))
-        ctx.case(["fmt", sorted(map(repr, e)), [type(v).__name__ for v in e.values()], t[:40]], nontrivial=True)
-        ctx.hist("format_outcome", "fallback" if t.endswith("[formatting failed]") else "formatted")
+            outcome = "raise"
+            if odd:
+                ctx.fail("oracle/format-raises-nontext-key", "format_message raised %r on an event dict with keys %r (a key that is "
+                         "neither text nor utf-8 bytes; ensure_dict_str_keys runs outside the try)" % (ex, sorted(map(repr, e))),
+                         replay=dict(keys=sorted(map(repr, e)), values=[repr(type(v)) for v in e.values()]))
+            else:
+                ctx.fail("oracle/format-raises", "format_message raised %r on an event with keys %r" % (ex, sorted(map(repr, e))),
+                         replay=dict(keys=sorted(map(repr, e)), values=[repr(type(v)) for v in e.values()]))
+        else:
+            if not isinstance(t, str):
+                ctx.fail("oracle/format-raises", "format_message returned %r (not text)" % (type(t),), replay=dict(keys=sorted(map(repr, e))))
+            ctx.case(["fmt", sorted(map(repr, e)), [type(v).__name__ for v in e.values()], t[:40]], nontrivial=True)
+            fb = t.endswith("[formatting failed]")
+            outcome = "formatted" if not fb else "unprintable" if t.startswith("[unprintable message]") else \
+                "nomessage" if t.startswith("[no message]") else "fallback"
+            ctx.hist("format_outcome", "fallback" if fb else "formatted")
+        if i < len(ODD_KEY_EVENTS) + ctx.n(400, 3000):
+            cases.append((fmt_model_input(e), outcome, sorted(map(repr, e))))
+    return cases
+
+
+def _utf8(b):
+    try:
+        b.decode("utf-8")
+        return True
+    except UnicodeDecodeError:
+        return False
+
+
+FMT_DEFS = """
+Open Scope Z_scope.
+Definition fo (r : res fout) : Z :=
+  match r with
+  | Raise _ => 0 | Ok Formatted => 1 | Ok (Fallback MUnprintable) => 2 | Ok (Fallback MNoMessage) => 3 | Ok (Fallback _) => 4
+  end.
+Definition F (e : list (fkey * fval)) := (fo (format_message true e), fo (format_message false e)).
+"""
+
+
+def correspond_format(ctx, cases):
+    """the model run with both outcomes of the % operator: the implementation's outcome must be one of the two (raise /
+    formatted / fallback kinds), and raising must agree exactly"""
+    code = {"raise": 0, "formatted": 1, "unprintable": 2, "nomessage": 3, "fallback": 4}
+    nbad = 0
+    for s0 in range(0, len(cases), 450):
+        part = cases[s0:s0 + 450]
+        body = FMT_DEFS + "".join("Eval vm_compute in F %s.\n" % c[0] for c in part)
+        try:
+            vals = ctx.coq_eval("C18_fmt_%d" % (s0 // 450), body, requires=JREQ + ["Verif.lib.LogFmt"])
+        except common.CoqEvalError as e:
+            ctx.fail("correspondence-broken", "the format_message model could not be evaluated: " + str(e)[-1500:], has_input=False)
+            return
+        for (term, outcome, keys), (a, b) in zip(part, vals):
+            ctx.traces += 1
+            got = code[outcome]
+            if got not in (a, b) or ((got == 0) != (a == 0)):
+                nbad += 1
+                if nbad <= 3:
+                    ctx.fail("correspondence/format", "format_message on %s (keys %r): model %r (with / without a working %% operator), "
+                             "implementation %s" % (term, keys, (a, b), outcome), replay=dict(event=term), has_input=False)
+    ctx.extra["correspondence_format_cases"] = len(cases)
+    ctx.extra["correspondence_format_disagreements"] = nbad
+
+
+# ====================================================================== the JSON fallback chain (lib/LogJson.v)
+JREQ = ["Verif.lib.PyLite", "Verif.gen.LogJsonGen", "Verif.lib.LogJson"]
+
+JSON_DEFS = """
+Open Scope Z_scope.
+Definition fcode (c : fixedstr) : Z :=
+  match c with FAt => 0 | FMessage => 1 | FRepr => 2 | FExcRepr => 3 | FStr => 4 | FTraceback => 5 | FFailure => 6
+  | FUnJSONable => 7 | FUnreprable => 8 | FReallyUnreprable => 9 | FText => 10 | FKeyPlace => 11 | FUnreprKey => 12
+  | FValPlace => 13 end.
+Definition kflat (k : pkey) : list Z :=
+  match k with
+  | KStr s => [0; s] | KInt z => [1; z] | KFloat f => [2; f] | KBool b => [3; if b then 1 else 0] | KNone => [4; 0]
+  | KReprOf s => [5; s] | KFixed c => [6; fcode c] | _ => [7; 0]
+  end.
+Fixpoint flat (j : jv) : list Z :=
+  match j with
+  | JNull => [0] | JBool b => [1; if b then 1 else 0] | JInt z => [2; z] | JFloat f => [3; f] | JStr s => [4; s]
+  | JFixed c => [5; fcode c]
+  | JDerived d s => [6; match d with DRepr => 0 | DExcRepr => 1 | DStrOf => 2 | DTraceback => 3 end; s]
+  | JList l => 7 :: Z.of_nat (List.length l) :: flat_map flat l
+  | JObj kv => 8 :: Z.of_nat (List.length kv) :: flat_map (fun e => kflat (fst e) ++ flat (snd e)) kv
+  | JDeep n x => 9 :: n :: flat x
+  end.
+Definition ecode (e : exn) : Z := match e with ETypeError => 0 | EValueError => 1 | ERecursionError => 2 | EOther => 3 end.
+Definition out (r : res (jv * Z)) : Z * list Z :=
+  match r with Ok (j, st) => (st, flat j) | Raise e => (-1, [ecode e]) end.
+Definition W (e : pv) := out (serialize_st cpython (wrap (PStr 50) (PFloat 51) e)).
+Definition H (e : pv) := out (serialize_st cpython (header (PStr 52) e [])).
+Definition R (e : pv) := out (serialize_st cpython e).
+"""
+
+J_SCALARS = [["none"], ["bool", True], ["bool", False], ["int", 0], ["int", -5], ["int", 2 ** 64 - 1], ["int", 2 ** 64],
+             ["int", -2 ** 70], ["float", 1.5], ["float", -0.25], ["nan"], ["str", "text"], ["str", u"é中"], ["str", u"\ud800"],
+             ["str", ""]]
+J_OPAQUE = [["bytes", "ab\xff"], ["obj"], ["badstr"], ["badrepr"], ["badboth"], ["reallybad"], ["failure"], ["set", [1]], ["setbad"]]
+J_LASTRESORT = [["deep", 3000, ["list", None, []]], ["deep", 5000, ["int", 1]], ["pow2", 16600], ["pow2", 14290],
+                ["negpow2", 15000]]
+J_KEYS_OK = [["str", "k"], ["str", "num"], ["int", 3], ["int", -1], ["float", 2.5], ["bool", True], ["none"]]
+J_KEYS_ODD = [["bytes", "k"], ["tuple", [1, 2]], ["obj"], ["badrepr"]]
+
+# one witness per family (earlier seeded changes and every distinct path through the three stages)
+J_FIXED = [
+    ["int", 1],
+    ["badrepr"],
+    ["dict", None, [[["tuple", [1, 2]], ["int", 3]]]],                                # stage 2: key json refuses
+    ["dict", None, [[["badrepr"], ["int", 1]], [["bytes", "k"], ["obj"]]]],               # stage 2: key whose repr raises
+    ["list", "a", [["int", 1], ["ref", "a"]]],                                           # stage 2: list containing itself
+    ["dict", "d", [[["str", "a"], ["int", 1]], [["str", "self"], ["ref", "d"]]]],         # stage 2: dict containing itself
+    ["tuple", [["list", "b", [["tuple", [["ref", "b"]]]]]]],                             # cycle through a tuple
+    ["deep", 3000, ["list", None, []]],                                                  # stage 3: RecursionError in both encoders
+    ["pow2", 16600],                                                                     # stage 3: ValueError (digit limit) twice
+    ["dict", None, [[["str", "in"], ["dict", None, [[["str", "in2"], ["dict", None, [[["str", "in3"], ["int", 5]]]]]]]], [["int", 7], ["pow2", 15000]]]],
+    ["dict", None, [[["tuple", [1]], ["deep", 3000, ["int", 1]]]]],                       # TypeError first, then RecursionError
+    ["dict", "c", [[["str", "k"], ["ref", "c"]], [["str", "h"], ["pow2", 16600]]]],     # a cycle met by _last_resort
+    ["dict", None, [[["pow2", 16600], ["int", 1]]]],                                   # an integer key too large to print
+    ["list", None, [["deep", 40, ["badrepr"]], ["set", [1]], ["failure"], ["reallybad"]]],
+    ["deep", 200, ["dict", None, [[["bytes", "k"], ["int", 1]]]]],                        # stage 2 at depth
+]
+
+
+def gen_jspec(rng, depth=0, names=()):
+    r = rng.random()
+    if depth < 4 and r < 0.22:
+        nm = "n%d" % rng.randrange(10 ** 6) if rng.random() < 0.4 else None
+        inner = names + ((nm,) if nm else ())
+        return ["list", nm, [gen_jspec(rng, depth + 1, inner) for i in range(rng.randint(0, 3))]]
+    if depth < 4 and r < 0.30:
+        return ["tuple", [gen_jspec(rng, depth + 1, names) for i in range(rng.randint(0, 3))]]
+    if depth < 4 and r < 0.55:
+        nm = "n%d" % rng.randrange(10 ** 6) if rng.random() < 0.4 else None
+        inner = names + ((nm,) if nm else ())
+        kv, used = [], set()
+        for i in range(rng.randint(0, 4)):
+            ks = rng.choice(J_KEYS_OK + J_KEYS_ODD) if rng.random() < 0.5 else ["str", "k%d" % i]
+            tag = repr(ks)
+            if tag in used or (ks[0] == "int" and "bool" in used) or (ks[0] == "bool" and "int" in used):
+                continue
+            used.add(tag)
+            used.add(ks[0])
+            kv.append([ks, gen_jspec(rng, depth + 1, inner)])
+        return ["dict", nm, kv]
+    if names and r < 0.63:
+        return ["ref", rng.choice(names)]
+    if depth < 4 and r < 0.68:
+        return ["deep", rng.choice([1, 2, 5, 40, 150]), gen_jspec(rng, depth + 1, names)]
+    if r < 0.72:
+        return rng.choice(J_LASTRESORT)
+    if r < 0.86:
+        return rng.choice(J_OPAQUE)
+    return rng.choice(J_SCALARS)
+
+
+def spec_kinds(sp, acc=None):
+    """which kinds of value that only the last-resort record can hold a spec contains (for the signature)"""
+    acc = set() if acc is None else acc
+    k = sp[0]
+    if k == "deep":
+        if sp[1] > 900:
+            acc.add("deep-nesting")
+        spec_kinds(sp[2], acc)
+    elif k in ("pow2", "negpow2"):
+        if sp[1] >= 14285:
+            acc.add("huge-int")
+    elif k == "list":
+        for x in sp[2]:
+            spec_kinds(x, acc)
+    elif k == "tuple" and sp[1] and isinstance(sp[1][0], list):
+        for x in sp[1]:
+            spec_kinds(x, acc)
+    elif k == "dict":
+        for ks, x in sp[2]:
+            spec_kinds(ks, acc)
+            spec_kinds(x, acc)
+    return acc
+
+
+def json_family(ctx, impl):
+    """every value through serialize_wrapper / serialize_header / serialize_to_json_utf8 of the real flogfile module:
+    never raises, the event's number / level / message read back; a whole file of them through get_events"""
+    from foolscap.logging import flogfile
+    import bz2
+    cases = []
+    specs = [(x, how) for x in J_FIXED + J_LASTRESORT + J_OPAQUE + J_SCALARS[:6] for how in ("wrapper", "header", "raw")]
+    for i in range(ctx.n(220, 5000)):
+        specs.append((gen_jspec(ctx.rng), ctx.rng.choice(["wrapper", "wrapper", "header", "raw"])))
+    lines = []
+    with impl.E.quiet():
+        for k, (x, how) in enumerate(specs):
+            num = k if k % 7 else 2 ** 64 - 1 - k
+            jb = impl.JBuilder()
+            try:
+                xv, xt = jb.val(x)
+            except (KeyError, TypeError):
+                continue          # a ["ref"] to a name that is not an enclosing container / an unhashable key
+            if how == "raw":
+                obj, term = xv, xt
+            else:
+                obj = dict(num=num, level=30, message=u"m%d é" % k, x=xv)
+                term = ("PDict 10 [(KStr 7, PInt %d); (KStr 8, PInt 30); (KStr 9, PStr %d); (KStr %d, %s)]"
+                        % (num, jb.reg(obj["message"]), jb.reg("x"), xt))
+            jb.reg("tub"), jb.reg("incident")
+            jb.table[50], jb.table[51], jb.table[52] = "tub", 1.5, "incident"
+            kind, got = impl.real_serialize(obj, how)
+            kinds = sorted(spec_kinds(x))
+            replay = dict(value=x, through=how)
+            ctx.case(["json", how, x], nontrivial=True)
+            ctx.hist("json_through", how)
+            if kind == "raise":
+                ctx.fail("oracle/serialize-raises" + ("-" + kinds[0] if kinds else ""),
+                         "flogfile.serialize_%s raises %s for an event holding %r" % (how if how != "raw" else "to_json_utf8", got, x),
+                         replay=replay)
+            elif how != "raw":
+                d = got.get("d") if how == "wrapper" else got.get("header", {}).get("trigger")
+                back = None if not isinstance(d, dict) else [d.get("num"), d.get("level"), d.get("message")]
+                if back != [num, 30, obj["message"]]:
+                    ctx.fail("oracle/readback-differs", "an event (num=%d, level=30, message=%r) holding %r written with serialize_%s "
+                             "reads back as num/level/message %r" % (num, obj["message"], x, how, back), replay=replay)
+                if how == "wrapper":
+                    lines.append((obj, [num, 30, obj["message"]]))
+            cases.append(dict(spec=x, how=how, term=term, kind=kind, got=got, jb=jb))
+        # ---- a whole file (plain and .bz2): MAGIC + one wrapper line per event, read with get_events
+        d = impl.fresh_dir("jsonfile")
+        for fn, opener in (("all.flog", lambda p: open(p, "wb")), ("all.flog.bz2", lambda p: bz2.BZ2File(p, "w"))):
+            p = os.path.join(d, fn)
+            wrote = []
+            f = opener(p)
+            f.write(flogfile.MAGIC)
+            for obj, want in lines:
+                try:
+                    flogfile.serialize_wrapper(f, obj, from_="tub", rx_time=1.5)
+                    wrote.append(want)
+                except Exception:
+                    pass          # reported above as serialize-raises
+            f.close()
+            try:
+                back = [[r["d"].get("num"), r["d"].get("level"), r["d"].get("message")] for r in flogfile.get_events(p)]
+            except Exception as e:
+                back = None
+                ctx.fail("oracle/written-file-unreadable", "a file of %d wrapper lines cannot be read back with get_events: %s: %s"
+                         % (len(wrote), type(e).__name__, e), replay=dict(file=fn, events=len(wrote)))
+            if back is not None and back != wrote:
+                k = next((i for i, (a, b) in enumerate(zip(back, wrote)) if a != b), min(len(back), len(wrote)))
+                ctx.fail("oracle/written-file-differs", "%s: %d events written, %d read back; first difference at %d: %r / %r"
+                         % (fn, len(wrote), len(back), k, back[k:k + 1], wrote[k:k + 1]), replay=dict(file=fn, events=len(wrote)))
+            ctx.case(["json-file", fn, len(lines)], nontrivial=True)
+    return cases
+
+
+STAGE_EXC = {0: "TypeError", 1: "ValueError", 2: "RecursionError", 3: "RuntimeError"}
+
+
+def correspond_json(ctx, impl, cases):
+    nbad = 0
+    learned = impl.learned_texts()
+    stage_hist = {}
+    for s0 in range(0, len(cases), 250):
+        part = cases[s0:s0 + 250]
+        body = JSON_DEFS
+        for c in part:
+            body += "Eval vm_compute in %s (%s).\n" % ({"wrapper": "W", "header": "H", "raw": "R"}[c["how"]], c["term"])
+        try:
+            vals = ctx.coq_eval("C18_json_%d" % (s0 // 250), body, requires=JREQ)
+        except common.CoqEvalError as e:
+            ctx.fail("correspondence-broken", "the JSON model could not be evaluated: " + str(e)[-1500:], has_input=False)
+            return
+        for c, (st, toks) in zip(part, vals):
+            ctx.traces += 1
+            ctx.hist("json_stage_model", st)
+            if st == -1:
+                model = ("raise", STAGE_EXC[toks[0]])
+                same = c["kind"] == "raise" and (c["got"] == model[1] or (model[1] == "RuntimeError" and c["got"] != "TypeError"))
+            else:
+                try:
+                    mv = c["jb"].decode(toks, learned)
+                except Exception as e:
+                    mv = "<undecodable model answer: %r>" % (e,)
+                model = ("ok", mv)
+                same = c["kind"] == "ok" and impl.same_json(mv, c["got"])
+            if not same:
+                nbad += 1
+                if nbad <= 3:
+                    ctx.fail("correspondence/json", "serialize_%s of %r: model (stage %d) %s, implementation %s"
+                             % (c["how"], c["spec"], st, repr(model)[:500], repr((c["kind"], c["got"]))[:500]),
+                             replay=dict(value=c["spec"], through=c["how"]), has_input=False)
+    ctx.extra["correspondence_json_cases"] = len(cases)
+    ctx.extra["correspondence_json_disagreements"] = nbad
 
 
 # ====================================================================== corpus / model witnesses
@@ -1219,6 +1711,19 @@ def run_corpus(ctx, impl):
                     ctx.fail(c["signature"], "%s: format_message raised %r on %r" % (os.path.basename(p), ex, spec),
                              replay=dict(corpus=os.path.basename(p), event=spec))
                 ctx.case(["corpus-format", spec], nontrivial=True)
+        elif c["kind"] == "format_keys":
+            for spec in c["events"]:
+                jb = impl.JBuilder()
+                e = {}
+                for ks, vs in spec:
+                    e[jb.key(ks)[0]] = jb.val(vs)[0]
+                try:
+                    t = flog.format_message(e)
+                    assert isinstance(t, str)
+                except Exception as ex:
+                    ctx.fail(c["signature"], "%s: format_message raised %r on an event dict with keys %r"
+                             % (os.path.basename(p), ex, sorted(map(repr, e))), replay=dict(corpus=os.path.basename(p), event=spec))
+                ctx.case(["corpus-format-keys", spec], nontrivial=True)
         elif c["kind"] == "trace":
             for cfg in c["cfgs"]:
                 before = len(ctx.failures)
@@ -1234,7 +1739,30 @@ def run_corpus(ctx, impl):
         ctx.hist("corpus", c["kind"])
 
 
+def replay_json_witness(ctx, impl):
+    """Example ex_huge_num_lost of lib/LogJsonProofs.v (why C18_event_reads_back bounds the number): an explicit num=2^64
+    next to a value only the last-resort record can hold is replaced by the placeholder text; 2^64-1 survives"""
+    from foolscap.logging import flogfile
+    got = []
+    for num in (2 ** 64 - 1, 2 ** 64):
+        f = io_mod.BytesIO()
+        try:
+            flogfile.serialize_wrapper(f, dict(num=num, level=30, message="m", x=impl.build(["deep", 3000])), from_="t", rx_time=1.0)
+            got.append(json.loads(f.getvalue().decode("utf-8"))["d"].get("num"))
+        except Exception as e:       # (the JSON family reports this with its input)
+            got.append(e)
+    ctx.case(["witness", "ex_huge_num_lost"], nontrivial=True)
+    ctx.traces += 1
+    if got[0] != 2 ** 64 - 1 or not isinstance(got[1], str):
+        ctx.fail("correspondence/example-ex_huge_num_lost", "the Example ex_huge_num_lost of lib/LogJsonProofs.v does not describe the "
+                 "implementation: numbers 2^64-1, 2^64 next to a 3000-deep value read back as %r" % (got,),
+                 replay=dict(nums=["2**64-1", "2**64"]), has_input=False)
+    ctx.extra["observation_explicit_num_beyond_2_64"] = ("log.msg(num=N) with |N| >= 2**64 (the caller's own number) reads back as the "
+                                                         "placeholder text when the event also holds a value that needs the last-resort record")
+
+
 def replay_model_witnesses(ctx, impl):
+    replay_json_witness(ctx, impl)
     """props/C18.v has no *_refuted theorem on this tree; the Examples of lib/LogBufProofs.v are replayed on the real code
     (ex_incident_trailing, ex_incident_nontrailing_then_later, ex_negative_limit)"""
     deep = ["deep", 3000]
